@@ -858,6 +858,46 @@ func freeTerminatedStays(r *lib.Rand) *freeRun {
 	return f
 }
 
+// restart-while-stopping: Start() issued after StopNoWait() but before the loop has wound down. The loop is still running:
+// Start() panics ("Loop is already started") and changes nothing; whatever happens, no second run goroutine may come to life
+func freeRestartWhileStopping(r *lib.Rand) *freeRun {
+	busy, useRun := 500+r.Intn(2500), r.Chance(30)
+	f := newFreeRun("restart-while-stopping", fmt.Sprintf("callback-busy=%dus second-start-by-Run=%v", busy, useRun))
+	f.loop.Run(func(vm *goja.Runtime) { f.install(vm) })
+	f.start()
+	f.loop.RunOnLoop(func(vm *goja.Runtime) { vm.RunString("setInterval(function(){ __t(1001) }, 1)") })
+	f.sync("interval set")
+	began := make(chan struct{})
+	f.loop.RunOnLoop(func(vm *goja.Runtime) {
+		f.enter("stopping callback")
+		f.loop.StopNoWait()
+		close(began)
+		vm.RunString(fmt.Sprintf("__busy(%d)", busy))
+		f.leave("stopping callback")
+	})
+	<-began
+	func() { // allowed to panic: the loop has not stopped yet
+		defer func() { recover() }()
+		if useRun {
+			f.loop.Run(func(*goja.Runtime) {})
+		} else {
+			f.loop.Start()
+		}
+	}()
+	time.Sleep(time.Duration(busy+1500) * time.Microsecond)
+	if _, ok := f.stop(r); !ok {
+		return f
+	}
+	for q := 0; q < 5; q++ {
+		f.submit(2, q, nil)
+	}
+	time.Sleep(3 * time.Millisecond) // the interval keeps ticking only if a run goroutine survived Stop()
+	f.start()
+	f.sync("restart")
+	f.finish()
+	return f
+}
+
 // runFree executes n free-running scenarios and returns the failures (one per oracle and kind at most) and statistics
 func runFree(r *lib.Rand, n int, profile string, outPath string) ([]lib.ImplFailure, map[string]int) {
 	eventloop.VerifHook = perturbHook
@@ -865,8 +905,8 @@ func runFree(r *lib.Rand, n int, profile string, outPath string) ([]lib.ImplFail
 	stats := map[string]int{}
 	seen := map[string]bool{}
 	var out []lib.ImplFailure
-	kinds := []func(*lib.Rand) *freeRun{freeLifecycle, freeLifecycle, freeBurst, freeCount, freeStopDuringRun, freeExpiredCleared, freeSelfClear, freeStopNoWaitAtQuiescence, freeTerminateBacklog, freeTerminatedStays}
-	bias := map[string][]int{"overlap": {0, 4}, "fifo": {2}, "timers": {6, 5}, "count": {3, 7}, "stop": {4, 7}, "terminate": {5, 8, 9}}[profile]
+	kinds := []func(*lib.Rand) *freeRun{freeLifecycle, freeLifecycle, freeBurst, freeCount, freeStopDuringRun, freeExpiredCleared, freeSelfClear, freeStopNoWaitAtQuiescence, freeTerminateBacklog, freeTerminatedStays, freeRestartWhileStopping}
+	bias := map[string][]int{"overlap": {0, 4, 10}, "fifo": {2}, "timers": {6, 5}, "count": {3, 7}, "stop": {4, 7}, "terminate": {5, 8, 9}}[profile]
 	for i := 0; i < n; i++ {
 		k := r.Intn(len(kinds))
 		if r.Chance(40) {
@@ -875,7 +915,7 @@ func runFree(r *lib.Rand, n int, profile string, outPath string) ([]lib.ImplFail
 		var f *freeRun
 		seed := r.U64()
 		// a crash inside a goroutine of the library cannot be recovered: leave the scenario behind for the replay
-		lib.Breadcrumb(outPath, fmt.Sprintf("free-running scenario %d: kind index %d (0,1 lifecycle; 2 burst; 3 count; 4 stop-during-run; 5 expired-then-cleared; 6 self-clear; 7 stopnowait-at-quiescence; 8 terminate-with-backlog; 9 terminated-stays-terminated), scenario seed %d", i, k, seed))
+		lib.Breadcrumb(outPath, fmt.Sprintf("free-running scenario %d: kind index %d (0,1 lifecycle; 2 burst; 3 count; 4 stop-during-run; 5 expired-then-cleared; 6 self-clear; 7 stopnowait-at-quiescence; 8 terminate-with-backlog; 9 terminated-stays-terminated; 10 restart-while-stopping), scenario seed %d", i, k, seed))
 		func() {
 			defer func() {
 				if x := recover(); x != nil {
